@@ -11,7 +11,13 @@
 2. harness/cmd/trust -mode chains builds real certificates / TRCs, calls cppki.VerifyChain with the
    explicit CurrentTime (A) and FetchingProvider.GetChains over a real in-memory sqlite trust DB
    with a scripted remote (B; all boundaries >= 2 days from the wall clock).
-3. TLC (spec/TrustChainTrace.tla) judges: accepted => ChainOK; handed out => ProviderOK.
+   (C) TRC update during operation: the store holds S1 and up to two chains, chains are requested,
+   S2 arrives through the real NotifyTRC (scripted remote serving the real S2), chains are requested
+   again; a trust.Verifier with its real go-cache checks a message signed under the old root before
+   and after, a fresh verifier after.  spec/ProviderCache.tla is the small state machine over
+   (time, database, cache) for the cache in front of the provider.
+3. TLC (spec/TrustChainTrace.tla) judges (history: every hand-out satisfies ProviderOK for the TRCs in
+   the store at that moment; a stale hit of the verifier's cache is drift: bounded by its expiration): accepted => ChainOK; handed out => ProviderOK.
 """
 import _pki
 import vlib
@@ -28,7 +34,13 @@ def run(c):
         hdr = [_pki.tlc_json_lines(r.out, t) for t in ("POOLA", "POOLB", "TRCSA")]
         if any(len(h) != 1 for h in hdr) or len(cases) != r.distinct - 1:
             raise vlib.Infra("generator output incomplete: %d cases, %d states" % (len(cases), r.distinct))
-        cases.sort(key=lambda s: 0 if '"kind":"verify"' in s else 1)
+        cases.sort(key=lambda s: 0 if '"kind":"verify"' in s else (1 if '"kind":"provider"' in s else 2))
+        # the verifier's chain cache in front of the provider while a TRC update arrives
+        c.mc("ProviderCache", "ProviderCacheMC.cfg", workers=2, timeout=600)
+        ns = c.tlc("ProviderCache", "ProviderCacheMC.nostale.cfg", workers=1, timeout=600)
+        if "NoStale" in ns.inv_violated:
+            c.notes.append("model: a verifier cache hit can hand out the old-root chain after the grace period, for "
+                           "at most the cache expiration (StaleBounded holds, NoStale does not)")
         scn = c.scratch + "/scn.ndjson"
         _pki.write_lines(scn, ['{"poola":%s,"poolb":%s,"trcsa":%s}' % (hdr[0][0], hdr[1][0], hdr[2][0])] + cases)
         c.run_driver(drv, ["-mode", "chains", "-scn", scn, "-out", trace], timeout=1800)
@@ -38,10 +50,12 @@ def run(c):
         _pki.need(c, r, "verified", "chain accepted by VerifyChain")
         _pki.need(c, r, "handed_out", "chain handed out by the provider")
         _pki.need(c, r, "handed_out_via_grace", "chain handed out through the predecessor TRC in grace")
+        _pki.need(c, r, "handed_out_after_update", "chain handed out after a TRC update arrived")
     _pki.drift(c, r)
     n, distinct = vlib.count_distinct(
         trace, lambda e: [e["chain"], e["trc"], e["t"]] if e.get("ev") == "verify" and e["ok"] else
-        ([e["tl"], e["db"], e["remote"]] if e.get("ev") == "provider" and e["ret"] else None))
+        ([e["tl"], e["db"], e["remote"]] if e.get("ev") == "provider" and e["ret"] else
+         ([e["tl"], e["db"], "history"] if e.get("ev") == "history" and (e["get1"] or e["get2"]) else None)))
     c.cov["traces_validated_against_impl"] += 1
     c.cov["evaluations"] += n - 2
     c.cov["distinct_nontrivial"] += distinct
@@ -49,7 +63,7 @@ def run(c):
     c.cov["rule"] = ("one evaluation = one VerifyChain call (chain, TRC, time) or one GetChains call (time line, "
                      "DB chains, remote chains); non-trivial = the code accepted / handed out a chain (antecedent "
                      "of the only-if statement); exhaustive = every case of the bounded TLC space was executed")
-    for k in ("verified", "handed_out", "handed_out_via_grace"):
+    for k in ("verified", "handed_out", "handed_out_via_grace", "handed_out_after_update", "stale_cache_accepts"):
         c.cov[k] = r.stats.get(k, 0)
     c.sample_trace(trace, nevents=4)
     c.assumptions += [
